@@ -1091,6 +1091,18 @@ def c05(rac, units, tier, seed):
         exprs.append((txt, want))
     exprs += [("m/s/s", frozenset([("Meter", 1, 0), ("Second", -2, 0)])), ("m*m^2", frozenset([("Meter", 3, 0)])), ("m^0", frozenset()), ("m/m", frozenset()), ("m/s*kg", frozenset([("Meter", 1, 0), ("Second", -1, 0), ("KiloGram", -1, 0)])),
               ("m^2 m", frozenset([("Meter", 3, 0)])), ("m/m^2", frozenset([("Meter", -1, 0)])), ("kg m^2/s^2", frozenset([("KiloGram", 1, 0), ("Meter", 2, 0), ("Second", -2, 0)]))]
+    # one unit written with two different prefixes inside one expression cannot be represented (one prefix per unit): it must be refused,
+    # never silently read as a plain number or with one of the prefixes
+    mixed = []
+    for w in ["m", "g", "s", "W", "J", "l", "Pa", "V"]:
+        for p1, p2 in [("k", ""), ("m", "k"), ("", "c"), ("M", "m")]:
+            for sep in ("/", "*", " "):
+                mixed.append(f"{p1}{w}{sep}{p2}{w}")
+    ans = rac.ask_many([{"cmd": "compound", "s": t} for t in mixed])
+    for t, a in zip(mixed, ans):
+        rep.ran(("mixed", t), True)
+        if "ok" in a:
+            rep.fail("one unit with two different prefixes was accepted (the prefix scale is lost)", query=t, expected="an error (mismatching prefix)", actual=json.dumps(a, ensure_ascii=False)[:200], cmd={"cmd": "compound", "s": t}, raw=a)
     ans = rac.ask_many([{"cmd": "compound", "s": t} for t, _ in exprs], chunk=2000)
     for (t, want), a in zip(exprs, ans):
         rep.ran(("expr", t), True, dict(unit_expression=t) if len(rep.samples) < 9 else None)
